@@ -10,13 +10,17 @@ LEVEL = "proof"
 
 THEOREMS = [
     "Mpc.C10_triples_valid",
+    "Mpc.C10_cot_from_bits",
     "Mpc.C10_triples_valid_pool",
-    "Mpc.C10_and_correct",
-    "Mpc.C10_share_invariant",
-    "Mpc.C10_level_schedule",
     "Mpc.C10_pool_lockstep",
     "Mpc.C10_pool_timing_independent",
+    "Mpc.C10_pool_get_returns",
+    "Mpc.C10_and_correct",
+    "Mpc.C10_and_step",
+    "Mpc.C10_level_schedule",
+    "Mpc.C10_share_invariant",
     "Mpc.C10_outputs",
+    "Mpc.C10_offline_online",
     "Mpc.C10_concrete",
 ]
 
@@ -112,8 +116,8 @@ def run(ctx):
     install_hook(ctx)
     quick = ctx.tier == "quick"
     if ctx.build_hx():
-        plan = [("tb", 16 if quick else 200, ctx.seed), ("pool", 600 if quick else 8000, ctx.seed),
-                ("sess", 30 if quick else 330, ctx.seed)]
+        plan = [("tb", 24 if quick else 200, ctx.seed), ("pool", 1000 if quick else 8000, ctx.seed),
+                ("sess", 84 if quick else 330, ctx.seed)]
         if not quick:
             plan.append(("sess", 330, ctx.seed + 1000))
         for mode, n, seed in plan:
